@@ -19,11 +19,28 @@
     (checked on every run by `modeld core` vs `cvh compile`).  `_partial` = core language
     only; inlines, let/assign, lambda, macros, constants, &rest and the optimisers are
     outside it.
+  * Layer B2 — `compile_core2_correct_partial`: the same theorem for the CORE2 language = core
+    + `defun-inline` functions (proper, dotted and nested parameter patterns, `(@ name pat)`
+    captures below the top level, any number of call arguments without `&rest`, inlines calling
+    inlines and functions, parameters used several times or not at all) + `let` / `let*`
+    (in functions, inline functions, the main expression, binding expressions and nested,
+    WITH shadowing: the meaning is lexically scoped), over the compiler model `Core2.compileCore2` (unique renaming of let-bound
+    names as in `rename.rs`, inline expansion `replace_in_inline`/`arg_lookup`, let hoisting `hoist_body_let_binding`/
+    `create_let_env_expression`, source-level liveness, then the core code generator) that is
+    byte-identical to the real compiler on that subset (`modeld core2` vs `cvh compile`, cl21
+    and strict-cl21).  The source meaning `Core2.evalProg` is call-by-value (an inline call
+    means what a call means, `let` binds values); the key lemmas are the renaming lemma
+    `Core2.rename_sound` and the expansion (substitution) lemma `Core2.expand_sound`.
+    `_partial` = that language only; `&rest` calls of
+    inlines (C01-F5), assign, lambda, macros, constants, the optimisers and the cl22+ code
+    generators are outside it.
 -/
 import ChialispModel.Lang.Env
 import ChialispModel.Lang.CoreSource
 import ChialispModel.Proofs.EnvLemmas
 import ChialispModel.Proofs.CoreLemmas
+import ChialispModel.Lang.Core2Source
+import ChialispModel.Proofs.Core2Lemmas
 
 namespace C01
 open Lang
@@ -81,6 +98,67 @@ def exampleProg : Core.Prog :=
 
 example : Core.progWF exampleProg = true := by decide
 example : (Core.compileCore exampleProg).isSome = true := by decide
+
+/-- Layer B2: correctness of the core2 compiler model (core + inline functions with
+    destructuring parameters + let), for any operator table implementing `i`, `c`, `f`, `r`
+    (in particular clvmr's), every well-formed core2 program (decidable check `Core2.progWF`),
+    all arguments: call-by-value source meaning `v` ⇒ the emitted CLVM evaluates to `v`. -/
+theorem compile_core2_correct_partial (ops : OpSem) (hops : Core.OpsCore ops) (hfr : Core2.OpsFR ops)
+    (P : Core2.Prog) (hwf : Core2.progWF P = true) (code : Val) (hc : Core2.compileCore2 P = some code)
+    (n : Nat) (args v : Val) (he : Core2.evalProg ops P n args = .ok v) :
+    Clvm.Evaluates ops code args v :=
+  Core2.compileCore2_correct ops hops hfr P hwf code hc n args v he
+
+/-- the expansion lemma on its own (substitution lemma): inline expansion and let hoisting
+    are call-by-name, so they can drop or repeat the evaluation of an argument but never
+    change a value — if the source program has value `v`, so does the expanded, inline-free
+    and let-free program (`Core2.expandProg`) under the same meaning function. -/
+theorem expansion_preserves_values_partial (ops : OpSem) (hops : Core.OpsCore ops) (hfr : Core2.OpsFR ops)
+    (P : Core2.Prog) (hwf : Core2.progWF P = true) (FT : List Core2.FnDef) (main : Core2.Expr)
+    (hx : Core2.expandProg (Core2.renameProg P) = some (FT, main)) (n : Nat) (args v : Val)
+    (he : Core2.evalProg ops P n args = .ok v) :
+    ∃ m, Core2.eval ops FT m P.params args main = .ok v := by
+  have hns : Core2.progWFNS (Core2.renameProg P) = true := by
+    simp only [Core2.progWF, Bool.and_eq_true] at hwf
+    exact hwf.2
+  exact Core2.expandProg_sound ops hops hfr (Core2.renameProg P) hns FT main hx n args v
+    (Core2.renameProg_sound ops P hwf n args v he)
+
+/-- clvmr's operator table (the driver's instance) meets the additional hypothesis. -/
+theorem chia_ops_fr : Core2.OpsFR Ops.chiaOps := Core2.chiaOps_fr
+
+/-- non-vacuity of Layer B2 (an inline with a dotted, destructured parameter and a let, called
+    from a function and from a let in the main expression):
+    `(mod (X Y) (defun-inline F (A (B . C)) (let ((Z (+ A B))) (* Z C))) (defun G (N) (F N (c N 3)))
+       (let ((V (G X))) (F V (c Y V))))` -/
+def exampleProg2 : Core2.Prog :=
+  { params := .cons (.atom [88]) (.cons (.atom [89]) .nil),
+    fns := [
+      ⟨[70], .cons (.atom [65]) (.cons (.cons (.atom [66]) (.atom [67])) .nil),
+        .letE [[90]] (.cons (.op 16 (.cons (.var [65]) (.cons (.var [66]) .nil))) .nil)
+          (.op 18 (.cons (.var [90]) (.cons (.var [67]) .nil))), true⟩,
+      ⟨[71], .cons (.atom [78]) .nil,
+        .call [70] (.cons (.var [78]) (.cons (.op 4 (.cons (.var [78]) (.cons (.lit (.atom [3])) .nil))) .nil)), false⟩],
+    body := .letE [[86]] (.cons (.call [71] (.cons (.var [88]) .nil)) .nil)
+      (.call [70] (.cons (.var [86]) (.cons (.op 4 (.cons (.var [89]) (.cons (.var [86]) .nil))) .nil))) }
+
+example : Core2.progWF exampleProg2 = true := by decide
+example : (Core2.compileCore2 exampleProg2).isSome = true := by decide
+
+/-- non-vacuity with shadowing (a let rebinding the inline's parameter, twice, and a let in the
+    main expression rebinding the program's parameter):
+    `(mod (X) (defun-inline F (A) (let ((A (+ A 1))) (let ((A (* A A))) A))) (let ((X (F X))) (c X X)))` -/
+def exampleProg3 : Core2.Prog :=
+  { params := .cons (.atom [88]) .nil,
+    fns := [
+      ⟨[70], .cons (.atom [65]) .nil,
+        .letE [[65]] (.cons (.op 16 (.cons (.var [65]) (.cons (.lit (.atom [1])) .nil))) .nil)
+          (.letE [[65]] (.cons (.op 18 (.cons (.var [65]) (.cons (.var [65]) .nil))) .nil) (.var [65])), true⟩],
+    body := .letE [[88]] (.cons (.call [70] (.cons (.var [88]) .nil)) .nil)
+      (.op 4 (.cons (.var [88]) (.cons (.var [88]) .nil))) }
+
+example : Core2.progWF exampleProg3 = true := by decide
+example : (Core2.compileCore2 exampleProg3).isSome = true := by decide
 
 -- non-vacuity: a nested pattern with a capture and a dotted tail
 example : nameLookup [66] (.cons (.atom [65]) (.cons (.cons (.atom [64]) (.cons (.atom [67]) (.cons (.cons (.atom [66]) (.atom [68])) .nil))) .nil)) = some 9 := by
